@@ -1101,7 +1101,13 @@ def _set_param_values(input_str, val, sw=":type"):
     :rtype: Tuple[Literal['doc', 'typ'], str]
     """
     return (
-        ("typ", (lambda v: "dict" if v.startswith("**") else v)(val.replace("```", "")))
+        (
+            "typ",
+            (lambda v: "dict" if v.startswith("**") else v)(
+                # A type never spans a paragraph break; what follows is footer prose
+                val.partition("\n\n")[0].rstrip().replace("```", "")
+            ),
+        )
         if input_str.startswith(sw)
         else ("doc", val)
     )
